@@ -32,7 +32,7 @@ import (
 // responsive peers are real sockets over a real transport.
 
 type spec struct {
-	Kind   string `json:"kind"` // matrix | dl-block | dl-ready | nodl | be | multi | fnp-none | fnp-leave | stale | be-multi | be-race | dl-churn | dl-inherit | dl-cross | nodl-leave
+	Kind   string `json:"kind"` // matrix | dl-block | dl-ready | nodl | be | multi | fnp-none | fnp-leave | stale | be-multi | be-race | dl-churn | dl-inherit | dl-cross | nodl-leave | dl-behind
 	Proto  string `json:"proto"`
 	Obj    string `json:"obj"`            // sock | ctx
 	Op     string `json:"op,omitempty"`   // send | recv
@@ -55,7 +55,16 @@ type spec struct {
 	// ODUs: the deadline of the OTHER direction in microseconds (0 = not set): a blocked Send is
 	// governed by the send deadline alone whatever the receive deadline is, and the other way round
 	ODUs int64 `json:"od_us,omitempty"`
+	// dl-behind — Blk: direction of the call that is ALREADY BLOCKED on the subject's socket (on the
+	// socket itself where the pattern allows concurrent calls, on another context of it otherwise)
+	// when the timed call is issued; BDUs: that call's own deadline in microseconds (0 = none);
+	// Early: the timed call's deadline is set before the blocking call is issued (else after it parked)
+	Blk   string `json:"blk,omitempty"`
+	BDUs  int64  `json:"bd_us,omitempty"`
+	Early bool   `json:"early,omitempty"`
 }
+
+func (s spec) BD() time.Duration { return time.Duration(s.BDUs) * time.Microsecond }
 
 func (s spec) D() time.Duration  { return time.Duration(s.DUs) * time.Microsecond }
 func (s spec) OD() time.Duration { return time.Duration(s.ODUs) * time.Microsecond }
@@ -72,6 +81,9 @@ func (s spec) variant() string {
 		v += "/other-deadline-shorter"
 	default:
 		v += "/other-deadline-longer"
+	}
+	if s.Blk != "" {
+		v += "/behind-blocked-" + s.Blk
 	}
 	return v
 }
@@ -512,6 +524,9 @@ func genCases(rnd *rand.Rand, thorough bool) []mon.CaseSpec {
 			add(spec{Kind: "nodl-leave", Proto: ros[k].proto, Obj: ros[k].obj, Op: "recv", Peer: "vt-leave", NPipes: n, Q: pickQ(1)})
 		}
 	}
+	// ==== third part (appended): the timed call is issued while another call is already blocked on
+	// the same socket (or on another context of it)
+	genBehind(rnd, thorough, reps, add, pickQ)
 	return cases
 }
 
@@ -543,6 +558,8 @@ func runCase(c *mon.Case, sp spec) {
 		runBERace(c, sp)
 	case "dl-churn":
 		runChurn(c, sp)
+	case "dl-behind":
+		runBehind(c, sp)
 	default:
 		panic("unknown kind " + sp.Kind)
 	}
